@@ -34,6 +34,7 @@ structure Store where
   subs : List Bytes
   nextInc : Nat
   log : List Entry       -- newest first
+  vseq : Nat := 0        -- `uid_validity_seq.last`: the last UIDVALIDITY this store has issued
 deriving Repr
 
 def inboxName : Bytes := b!"INBOX"
@@ -42,10 +43,14 @@ def defaultNames : List Bytes := [b!"INBOX", b!"Sent", b!"Drafts", b!"Trash", b!
 
 /-- a freshly initialised store (`createDefaultMailboxes`), created at clock reading `now` -/
 def Store.init (now : Nat) : Store :=
-  { boxes := (defaultNames.zipIdx).map (fun (n, i) => { name := n, validity := now, uidNext := 1, links := [], inc := i })
+  { boxes := (defaultNames.zipIdx).map (fun (n, i) => { name := n, validity := now + i, uidNext := 1, links := [], inc := i })
     subs := []
     nextInc := defaultNames.length
-    log := [] }
+    log := []
+    vseq := now + (defaultNames.length - 1) }
+
+/-- `nextUIDValidity`: the clock reading, or the successor of the last value issued, whichever is larger -/
+def Store.freshValidity (s : Store) (now : Nat) : Nat := max (s.vseq + 1) now
 
 def Store.find (s : Store) (n : Bytes) : Option Mbox := s.boxes.find? (fun b => b.name = n)
 def Store.has (s : Store) (n : Bytes) : Bool := s.boxes.any (fun b => b.name = n)
@@ -183,8 +188,9 @@ def ancestors (name : Bytes) : List Bytes :=
 
 def Store.newBox (s : Store) (n : Bytes) (now : Nat) : Store :=
   if n = [] ∨ s.has n then s
-  else { s with boxes := s.boxes ++ [{ name := n, validity := now, uidNext := 1, links := [], inc := s.nextInc }]
-                nextInc := s.nextInc + 1 }
+  else { s with boxes := s.boxes ++ [{ name := n, validity := s.freshValidity now, uidNext := 1, links := [], inc := s.nextInc }]
+                nextInc := s.nextInc + 1
+                vseq := s.freshValidity now }
 
 def Store.newBoxes (s : Store) (ns : List Bytes) (now : Nat) : Store := ns.foldl (fun s n => s.newBox n now) s
 
@@ -232,9 +238,10 @@ def Store.rename (s : Store) (oldArg newArg : Bytes) (now : Nat) : Store × Res 
     else match s.find inboxName with
       | none => (s, .no)
       | some ib =>
-        let nb : Mbox := { name := n, validity := now, uidNext := ib.uidNext, links := ib.links, inc := s.nextInc }
+        let nb : Mbox := { name := n, validity := s.freshValidity now, uidNext := ib.uidNext, links := ib.links, inc := s.nextInc }
         ({ s with boxes := (s.boxes.map (fun b => if b.name = inboxName then { b with links := [] } else b)) ++ [nb]
                   nextInc := s.nextInc + 1
+                  vseq := s.freshValidity now
                   log := relog nb ++ s.log }, .ok)
   else if !s.has o then (s, .no)
   else if s.has n then (s, .no)
